@@ -153,13 +153,15 @@ theorem endProgFinish_adv (ts ts' : List Tok5) (s s' : TState) (mt early : Bool)
   · split at h
     · injection h with h; injection h with _ h; subst h; exact ⟨Adv.refl _, hle⟩
     · split at h
+      · injection h with h; injection h with _ h; subst h; exact ⟨Adv.refl _, hle⟩
       · split at h
-        · injection h with h; injection h with _ h; subst h; exact ⟨Adv.refl _, hle⟩
-        · injection h with h; injection h with _ h; subst h
-          exact ⟨⟨rfl, rfl, rfl, hle⟩, Nat.le_refl _⟩
-      · split at h
-        · cases h
-        · injection h with h; injection h with _ h; subst h; exact ⟨Adv.refl _, hle⟩
+        · split at h
+          · injection h with h; injection h with _ h; subst h; exact ⟨Adv.refl _, hle⟩
+          · injection h with h; injection h with _ h; subst h
+            exact ⟨⟨rfl, rfl, rfl, hle⟩, Nat.le_refl _⟩
+        · split at h
+          · cases h
+          · injection h with h; injection h with _ h; subst h; exact ⟨Adv.refl _, hle⟩
 
 theorem handleEndProgs_adv (E : Env) (P : Pats) (st st' : TState) (ts : List Tok5)
     (hmax : st.max = st.line.size) (hle : st.pos ≤ st.max)
@@ -321,10 +323,12 @@ theorem endProgFinish_err (ts : List Tok5) (s : TState) (mt early : Bool) (e : E
   · split at h
     · cases h
     · split at h
-      · split at h <;> cases h
+      · cases h
       · split at h
-        · injection h with h; subst h; simp
-        · cases h
+        · split at h <;> cases h
+        · split at h
+          · injection h with h; subst h; simp
+          · cases h
 
 theorem handleEndProgs_err (E : Env) (P : Pats) (st : TState) (e : Err)
     (h : handleEndProgs E P st = .error e) : e ≠ .loopFuel := by
